@@ -40,6 +40,7 @@ import (
 	"github.com/sarchlab/mgpusim/v4/amd/protocol"
 	"github.com/sarchlab/mgpusim/v4/amd/samples/runner/emusystem"
 	"github.com/sarchlab/mgpusim/v4/amd/samples/runner/timingconfig"
+	"github.com/sarchlab/mgpusim/v4/amd/timing/cp"
 
 	ab "verifharness/akitabench"
 )
@@ -144,6 +145,97 @@ type World struct {
 	pid                  uint64
 	dead                 bool
 	events               int
+	taps                 []*sysTap
+}
+
+// sysTap collects the port events of the command processor and the DMA engine
+// of one GPU of a timing platform; they are written as a DMATrace trace.
+type sysTap struct {
+	g                int
+	line, caches     int
+	dmadst           string
+	events           []tapEvent
+	ids              map[string]map[string]int
+	issued, answered int
+	bad              string
+}
+
+type tapEvent struct {
+	e string
+	f ab.Rec
+}
+
+func (t *sysTap) id(space, s string) int {
+	m, ok := t.ids[space]
+	if !ok {
+		m = map[string]int{}
+		t.ids[space] = m
+	}
+	if v, ok := m[s]; ok {
+		return v
+	}
+	m[s] = len(m) + 1
+	return m[s]
+}
+
+func (t *sysTap) known(space, s string) int {
+	if v, ok := t.ids[space][s]; ok {
+		return v
+	}
+	return -1
+}
+
+func (w *World) attachSysTaps() {
+	for g := 1; g <= w.sc.GPUs; g++ {
+		c, ok1 := w.sim.GetComponentByName(fmt.Sprintf("GPU[%d].CommandProcessor", g)).(*cp.CommandProcessor)
+		d, ok2 := w.sim.GetComponentByName(fmt.Sprintf("GPU[%d].DMA", g)).(*cp.DMAEngine)
+		if !ok1 || !ok2 {
+			continue
+		}
+		t := &sysTap{g: g, line: 1 << d.Log2AccessSize, dmadst: string(d.ToCP.AsRemote()), ids: map[string]map[string]int{},
+			caches: len(c.L1VCaches) + len(c.L1SCaches) + len(c.L1ICaches) + len(c.L2Caches)}
+		base := uint64(g) * 4 * mem.GB
+		gg := g
+		attachDMATap(c, d, &dmaTap{filter: true, id: t.id, known: t.known,
+			emit: func(e string, f ab.Rec) {
+				switch e {
+				case "DrvReq":
+					t.issued++
+				case "CPDone":
+					t.answered++
+				}
+				t.events = append(t.events, tapEvent{e, f})
+			},
+			addr: func(a uint64) int {
+				if a < base || a-base >= 1<<31 {
+					t.bad = fmt.Sprintf("address %#x outside the memory of GPU %d", a, gg)
+					return -1
+				}
+				return int(a - base)
+			}})
+		w.taps = append(w.taps, t)
+	}
+}
+
+// flushSys writes what the taps saw as one trace per GPU that received copy traffic.
+func (w *World) flushSys(rec *ab.Recorder) int {
+	n := 0
+	for _, t := range w.taps {
+		if t.issued == 0 || rec == nil {
+			continue
+		}
+		n++
+		rec.Emit("Reset", ab.Rec{"line": t.line, "caches": t.caches, "msize": 0, "tag": fmt.Sprintf("%s:gpu%d", w.sc.Tag, t.g),
+			"dmadst": t.dmadst, "memdst": "", "plat": w.plat})
+		for _, ev := range t.events {
+			rec.Emit(ev.e, ev.f)
+		}
+		if t.bad != "" {
+			rec.Emit("Panic", ab.Rec{"msg": t.bad, "cls": "harness"})
+		}
+		rec.Emit("Quiesce", ab.Rec{"issued": t.issued, "answered": t.answered, "mem": [][]interface{}{}})
+	}
+	return n
 }
 
 func (w *World) emit(e string, f ab.Rec) {
@@ -219,6 +311,7 @@ func newWorld(sc *Scenario, rec *ab.Recorder, stats map[string]int) *World {
 		timingconfig.MakeBuilder().WithSimulation(w.sim).WithNumGPUs(sc.GPUs).WithGPUType(sc.Plat).Build()
 		w.d = w.sim.GetComponentByName("Driver").(*driver.Driver)
 		w.eng = w.sim.GetEngine()
+		w.attachSysTaps()
 	default:
 		panic("unknown platform " + sc.Plat)
 	}
